@@ -53,6 +53,13 @@ func tqvPad(secret []byte, sid uint32, ver, seq byte, n int) []byte {
 	return pad[:n]
 }
 
+func tqvLen3(b []byte) int {
+	if len(b) < 3 {
+		return len(b)
+	}
+	return 3
+}
+
 func TestTqvWitness(t *testing.T) {
 	secret := []byte("tqv-secret")
 	var bad []string
@@ -124,6 +131,25 @@ func TestTqvWitness(t *testing.T) {
 					}
 				}
 			}
+		}
+	}
+	// a reply whose body cannot be encoded sends nothing and must not disturb the numbering
+	// of the reply that follows for the same request
+	for _, seq := range []int{1, 7, 253} {
+		conn := &tqvConn{}
+		ver := Version{MajorVersion: MajorVersion, MinorVersion: MinorVersionDefault}
+		req := Header{Version: ver, Type: Authorize, SeqNo: SequenceNumber(seq), SessionID: 99}
+		r := &response{ctx: context.Background(), crypter: newCrypter(secret, conn, false), loggerProvider: tqvLogger{}, header: req}
+		long := make([]byte, 300)
+		for i := range long {
+			long[i] = 'a'
+		}
+		if _, err := r.Reply(NewAuthorReply(SetAuthorReplyStatus(AuthorStatusPassAdd), SetAuthorReplyArgs("x="+string(long)))); err == nil || conn.out.Len() != 0 {
+			bad = append(bad, fmt.Sprintf("request %d: an unencodable reply was written (%d bytes, err %v)", seq, conn.out.Len(), err))
+		}
+		r.Reply(NewAuthorReply(SetAuthorReplyStatus(AuthorStatusError), SetAuthorReplyServerMsg("no")))
+		if got := conn.out.Bytes(); len(got) < 12 || int(got[2]) != seq+1 {
+			bad = append(bad, fmt.Sprintf("request %d: the reply after a failed reply is numbered %v, want %d", seq, got[:tqvLen3(got)], seq+1))
 		}
 	}
 	out := map[string]interface{}{"obligation": "tacquito.response.Reply/post*", "scenario": "table of requests x reply bodies through the real response.Reply over a capturing connection",
